@@ -19,7 +19,7 @@ for d in seeded/*/; do
   id=$(basename "$d"); p=$(python3 -c "import json;print(json.load(open('$d/meta.json'))['property'])")
   echo "$p" | grep -Eq "$FILTER" && echo "seeded $id $p /verif/${d}patch.diff" >> "$work/jobs"
 done
-ALL=$(./bin/connectlint -list | grep -oE '^C[0-9]+' | paste -sd,)
+ALL=ALL   # one process runs every registered rule once
 for f in selftest/benign/*.diff selftest/benign/*/patch.diff; do
   [ -f "$f" ] || continue
   n=$(echo "$f" | sed 's#selftest/benign/##; s#/patch.diff##; s#.diff$##')
